@@ -16,12 +16,15 @@ WIDTH = {"bool": 0, "int": 1, "float": 2}
 
 
 def interval_dates(s, tier):
-    if tier == "quick":
-        return [f for f, _ in s.em.intervals(QUICK_START)]
+    """quick: the first day of every equivalence interval since 1980 (one sample per class is complete if the
+    timeline is); thorough: also the last day, the day after each change, and every 29 February"""
     iv = s.em.intervals(THOROUGH_START)
+    if tier == "quick":
+        return [f for f, _ in iv]
     ds = {f for f, _ in iv} | {l for _, l in iv}
+    ds |= {f + datetime.timedelta(days=1) for f, l in iv if f < l}
     ds |= {datetime.date(y, 2, 29) for y in range(1980, s.em.last_entry_date.year + 2, 4)}
-    return sorted(ds)
+    return sorted(d for d in ds if d <= s.em.last_entry_date)
 
 
 def vectorize_mode(repo):
@@ -105,6 +108,9 @@ class KindRun:
                 allk = set()
                 for rk, _, _ in rets:
                     allk |= set(rk)
+                if not rets:
+                    self.noverdict[q].add("no return path (the rule always raises)")
+                    continue
                 if unhandled or not allk <= {"bool", "int", "float"}:
                     self.noverdict[q].add(", ".join(sorted(bad_ev | set(unhandled))) or "non-numeric kind " + "/".join(sorted(allk)))
                     continue
